@@ -45,6 +45,10 @@ fn ph_lit(p: Ph) -> &'static str {
     match p { Ph::Reg => "PReg", Ph::Warm => "PWarm", Ph::Live => "PLive", Ph::Deg => "PDeg" }
 }
 fn u(v: u64) -> String { z(v as i128) }
+/// float literal for an argument position that already has float scope (shorter common values)
+fn fs(v: f64) -> String {
+    if v.to_bits() == 0 { "0".into() } else if v == 1.0 { "1".into() } else { flt(v) }
+}
 fn i(v: i32) -> String { z(v as i128) }
 fn onat(o: Option<usize>) -> String {
     match o { None => "None".into(), Some(v) => format!("(Some {}%nat)", v) }
@@ -54,14 +58,14 @@ pub fn link_lit(l: &L) -> String {
     format!("(Lk {} {} {} {} {} {} {} {} {} {} {} {} {} {} {} {} {} {} {} {} {} {} {} {} {} {} {})",
         boolc(l.conn), ph_lit(l.phase), i(l.window), i(l.inflight), l.queued,
         optz(l.lastrx.map(|v| v as i128)), u(l.proof), u(l.est), u(l.grace),
-        boolc(l.weak), boolc(l.lossdeg), u(l.cct), flt(l.bps), flt(l.srtt), flt(l.rttmin),
+        boolc(l.weak), boolc(l.lossdeg), u(l.cct), fs(l.bps), fs(l.srtt), fs(l.rttmin),
         i(l.nakcnt), u(l.naklast), i(l.nakburst),
         u(l.timeout), boolc(l.gated), boolc(l.pulled), u(l.pulls), u(l.latched), u(l.recov),
-        u(l.gevents), flt(l.qmult), u(l.qlast))
+        u(l.gevents), fs(l.qmult), u(l.qlast))
 }
 pub fn hid_lit(l: &L) -> String {
     format!("(Hd {} {} {} {} {} {} {} {} {})", u(l.timeout), boolc(l.gated), boolc(l.pulled),
-        u(l.pulls), u(l.latched), u(l.recov), u(l.gevents), flt(l.qmult), u(l.qlast))
+        u(l.pulls), u(l.latched), u(l.recov), u(l.gevents), fs(l.qmult), u(l.qlast))
 }
 
 /// Write the externally driven fields into a real link.
@@ -211,7 +215,7 @@ impl CaseB {
             select_connection_idx(&mut conns[..], last, now, &cfg)
         }));
         self.selects += 1;
-        let elit = format!("[{}]", exps.iter().map(|e| flt(*e)).collect::<Vec<_>>().join(";"));
+        let elit = format!("[{}]", exps.iter().map(|e| if *e == 1.0 { "1%float".to_string() } else { flt(*e) }).collect::<Vec<_>>().join(";"));
         self.ops.push(format!("OSelect {} {} {} {}", onat(last), u(now), cf.lit(), elit));
         match r {
             Ok(res) => {
@@ -529,7 +533,7 @@ pub fn run_family(prop: &str, run_module: &str, seed: u64, tier: &str, out: &Pat
             push(&mut run, "gate_product3", product_case(&ps, classic, rp.chance(2, 3), Some(rp.below(4) as usize)));
         }
     } else {
-        let npairs = if c11 { 500 } else { 1100 };
+        let npairs = if c11 { 350 } else { 600 };
         for _ in 0..npairs {
             let ps = [rp.below(80) as usize, rp.below(80) as usize];
             let classic = rp.chance(1, 2) && !c11;
@@ -547,19 +551,19 @@ pub fn run_family(prop: &str, run_module: &str, seed: u64, tier: &str, out: &Pat
 
     let scale = if big { 10 } else { 1 };
     let mut rr = r.fork(2);
-    for _ in 0..(if c11 { 350 } else { 700 }) * scale {
+    for _ in 0..(if c11 { 300 } else { 500 }) * scale {
         let mut cb = random_state_case(&mut rr);
         if c11 && rr.chance(3, 4) { /* keep as is: mode is random; C11 monitor skips classic selects */ }
         cb.tags.push("random");
         push(&mut run, "random_state", cb);
     }
     let mut rh = r.fork(3);
-    for _ in 0..(if c11 { 120 } else { 260 }) * scale {
+    for _ in 0..(if c11 { 100 } else { 200 }) * scale {
         let steps = 2 + rh.below(7) as usize;
         push(&mut run, "history", history_case(&mut rh, steps));
     }
     let mut rs = r.fork(4);
-    for _ in 0..(if c11 { 700 } else { 150 }) * scale {
+    for _ in 0..(if c11 { 450 } else { 120 }) * scale {
         push(&mut run, "score_space", score_space_case(&mut rs));
     }
     run.note(format!("selection family for {}: real select_connection_idx on 0..4 real SrtlaConnection objects; \
